@@ -92,8 +92,8 @@ def main(argv=None):
     def show(r):
         if a.v: print('[case] %-50s %-12s paths=%s pruned=%s red=%s obl=%s sat=%s %.1fs %s' % (r['case']['name'], r['status'], r['stats'].get('paths'), r['stats'].get('pruned'), r['stats'].get('redundant'),
               r['stats'].get('obligations'), r['stats'].get('sat'), r['wall_s'], (r.get('error') or '')[:300]), flush=True)
-    # time cap for the whole run (thorough tier): work not finished by then is listed as not run, never as passed
-    cap = float(os.environ.get('VERIF_TIME_CAP', '600' if a.tier == 'thorough' else '0')) or None
+    # time cap for the whole run (thorough: 600 s; quick: 1500 s, several times its normal duration, so that a change that makes the exploration explode cannot hang the check): work not finished by then is listed as not run, never as passed
+    cap = float(os.environ.get('VERIF_TIME_CAP', '600' if a.tier == 'thorough' else '1500')) or None
     skipped = []
     wave2 = []
     capped = False
